@@ -21,7 +21,7 @@ LEVEL_NOTE = "trusted: props/monitors.py comparison; the known lag after a sync 
 
 
 def budget(tier):
-    return {"quick": {"runs": 5000, "wall": 150}, "thorough": {"runs": 300000, "wall": 1500}}[tier]
+    return {"quick": {"runs": 5000, "wall": 150}, "thorough": {"runs": 60000, "wall": 900}}[tier]
 
 
 class StorageMonitor:
